@@ -27,3 +27,12 @@
 ;; the dynamic type / nil-ness of the value an interface holds (reflect.ValueOf, reflect.TypeOf, Value.Interface)
 (declare-fun dynType (I_any) I_reflect_Type)
 (declare-fun dynNil (I_any) Bool)
+;; Go assignability between types (language specification, "Assignability"): a value of a non-interface type is
+;; assignable to a type of the same kind only, an interface type is never assignable to a non-interface type, and
+;; between types that are neither interface nor channel types assignability is symmetric (identical types, or
+;; identical underlying types of which at most one is named).
+(assert (forall ((a I_reflect_Type) (b I_reflect_Type)) (! (=> (and (assignable a b) (not (= (rtKind b) 20))) (= (rtKind a) (rtKind b))) :pattern ((assignable a b)))))
+(assert (forall ((a I_reflect_Type) (b I_reflect_Type)) (! (=> (and (assignable a b) (not (= (rtKind a) 20)) (not (= (rtKind a) 18)) (not (= (rtKind b) 20)) (not (= (rtKind b) 18))) (assignable b a)) :pattern ((assignable a b)))))
+;; the type a pointer chain ends in
+(declare-fun rtBase (I_reflect_Type) I_reflect_Type)
+(assert (forall ((t I_reflect_Type)) (! (= (rtBase t) (ite (= (rtKind t) 22) (rtBase (rtElem t)) t)) :pattern ((rtBase t)))))
